@@ -200,13 +200,26 @@ OutVec(kind, n, sp) ==
 MaskVec(kind, n, sp) == [i \in 1 .. OutLen(kind, n) |-> IF OutKnown(kind, n, sp, i - 1) THEN 1 ELSE 0]
 ScaleVec(v, s, L) == [q \in 1 .. L |-> s * v[q]]
 
-\* Tolerance of the comparison in units of 2^-52 * |input|_1.  "To rounding" for these algorithms means
-\* O(p * eps * |x|_1) for the largest prime factor p of the FFT length (FFTPACK's general-radix pass builds
-\* its twiddles by recurrences; measured: up to 16 n eps |output| for prime n, outputs up to 4 |x|_1), and
-\* the radix-2/4 routines document error accumulation in their successively multiplied twiddles.  The bound
-\* below leaves a factor of about 50 over the largest error measured on the unchanged library (n up to 10^4)
-\* and is still eight to ten orders of magnitude below the effect of an index, sign, scale, stride or aliasing error (O(|x|_1)).
-TolK(kind, n) == 8192 * n
+\* Tolerance of the comparison in units of 2^-52 * |input|_1.  "To rounding" for these algorithms: FFTPACK's
+\* passes for the factors 2,3,4,5 lose O(eps) per pass, but its general-radix pass (prime factors p > 5)
+\* builds twiddles by recurrences and sums p terms with them; measured on the unchanged library the error
+\* for prime lengths is about 0.2 p^2 eps |x|_1 (p = 331: 4e3 eps, p = 7027: 7e6 eps relative to |x|_1), for
+\* smooth lengths below 64 n eps |x|_1; the radix-2/4 routines document accumulation in their successively
+\* multiplied twiddles.  DCT, DST and the quarter-wave transforms run real FFTs of length n-1, n+1 and n, so
+\* the largest prime factor G of those three lengths is used.  The bound leaves a factor >= 16 (smooth) and
+\* about 40 (prime) over the measured errors and is still 6 (p = 10^4) to 10 orders of magnitude below the
+\* effect of an index, sign, scale, stride or aliasing error, which is O(|x|_1).
+SmallDivs(m) == {d \in 2 .. 101 : d * d <= m /\ m % d = 0}
+RECURSIVE LPF(_)   \* largest prime factor, m <= 101^2
+LPF(m) == IF SmallDivs(m) = {} THEN m
+          ELSE LPF(m \div (CHOOSE d \in SmallDivs(m) : \A e \in SmallDivs(m) : d <= e))
+Max3(a, b, c) == IF a >= b /\ a >= c THEN a ELSE IF b >= c THEN b ELSE c
+G(n) == Max3(LPF(n), LPF(n + 1), IF n > 1 THEN LPF(n - 1) ELSE 1)
+TolK(kind, n) == 1024 * n + 8 * G(n) * G(n)
+LpfSound == \A m \in 1 .. 60 :
+              /\ m % LPF(m) = 0
+              /\ \A d \in 2 .. LPF(m) - 1 : LPF(m) % d # 0
+              /\ \A q \in LPF(m) + 1 .. m : m % q = 0 => \E d \in 2 .. q - 1 : q % d = 0
 
 CaseA(kind, n, fam, sp) ==
     LET x == DenseOf(sp, InLen(kind, n), CplxIn(kind)) IN
@@ -267,7 +280,7 @@ HasCase == Len(SP) > 0 /\ \E i \in 0 .. OutLen(cs.kind, cs.n) - 1 : OutKnown(cs.
 
 \* FFT.seq of a Hermitian half spectrum is real by construction of Term; the complex kinds
 \* need no such side condition.  The tables are checked once (in the state n = NLo, fam = least).
-TablesOK == (cs.n = NLo /\ \A f \in Fams : cs.fam <= f) => TrigTablesSound
+TablesOK == (cs.n = NLo /\ \A f \in Fams : cs.fam <= f) => (TrigTablesSound /\ LpfSound)
 
 \* position 0 is always fully known for the kinds whose sum has a constant term in k = 0
 ImpulseAlways == (cs.kind \in {"C.coef", "C.seq", "FFT.coef", "FFT.seq", "DCT.t", "QW.cosc", "R2.coef", "R2.seq", "R4.coef", "R4.seq"})
